@@ -130,18 +130,27 @@ pub fn for_each_expr(opts: &SpaceOpts, f: &(dyn Fn(&Expr) + Sync)) -> u64 {
             }
         }
     }
-    // position family
+    // position family: all but the last level are materialised, the last one is streamed
     {
-        let mut fam: Vec<Seq> = vec![];
-        if opts.position > 0 {
-            fam.extend(gen::position_family(opts.position, false));
+        for (depth, full) in [(opts.position, false), (opts.position_full, true)] {
+            if depth == 0 {
+                continue;
+            }
+            let fam = gen::PositionFamily::new(depth - 1, full);
+            let cores_level: Vec<Seq> = if depth == 1 { gen::PositionFamily::new(0, full).levels.into_iter().flatten().collect() } else { vec![] };
+            let _ = cores_level;
+            for level in &fam.levels {
+                level.par_iter().for_each(|s| visit(s, "position"));
+            }
+            // last level
+            let prev: Vec<Seq> = match fam.levels.last() {
+                Some(l) => l.clone(),
+                None => gen::position_cores(),
+            };
+            prev.par_iter().for_each(|x| {
+                fam.wraps_of(x, &mut |s| visit(s, "position"));
+            });
         }
-        if opts.position_full > 0 {
-            fam.extend(gen::position_family(opts.position_full, true));
-        }
-        fam.sort();
-        fam.dedup();
-        fam.par_iter().for_each(|s| visit(s, "position"));
         if opts.position > 0 {
             let flags = gen::flag_family();
             flags.par_iter().for_each(|s| visit(s, "flags"));
